@@ -1528,9 +1528,17 @@ class quantized_bits(base_quantizer.BaseQuantizer):  # pylint: disable=invalid-n
             self.keep_negative,
         "use_stochastic_rounding":
             self.use_stochastic_rounding,
+        "scale_axis":
+            self.scale_axis,
         "qnoise_factor":
             self.qnoise_factor.numpy() if isinstance(
                 self.qnoise_factor, tf.Variable) else self.qnoise_factor,
+        "elements_per_scale":
+            self.elements_per_scale,
+        "min_po2_exponent":
+            self.min_po2_exponent,
+        "max_po2_exponent":
+            self.max_po2_exponent,
         "post_training_scale":
             # Since NumPy arrays are not directly JSON-serializable,
             # we convert them to lists.
@@ -3284,6 +3292,9 @@ class quantized_hswish(quantized_bits):  # pylint: disable=invalid-name
     """Add relu_shift and relu_upper_bound to the config file."""
 
     base_config = super(quantized_hswish, self).get_config()
+    # quantized_hswish.__init__ does not take these quantized_bits arguments.
+    for key in ("elements_per_scale", "min_po2_exponent", "max_po2_exponent"):
+      base_config.pop(key, None)
 
     config = {
         "relu_shift": self.relu_shift,
